@@ -1,5 +1,5 @@
 use crate::{
-    geometry::Point,
+    geometry::{Dimensions, Point},
     primitives::{
         common::Scanline,
         rounded_rectangle::{RoundedRectangle, RoundedRectangleContains},
@@ -28,10 +28,14 @@ impl Iterator for Points {
     type Item = Point;
 
     fn next(&mut self) -> Option<Self::Item> {
-        self.current_scanline.next().or_else(|| {
+        loop {
+            if let Some(point) = self.current_scanline.next() {
+                return Some(point);
+            }
+
+            // Empty scanlines are skipped instead of ending the iteration.
             self.current_scanline = self.scanlines.next()?;
-            self.current_scanline.next()
-        })
+        }
     }
 }
 
@@ -56,35 +60,41 @@ impl Iterator for Scanlines {
         let columns = self.rounded_rectangle.columns.clone();
         let y = self.rounded_rectangle.rows.next()?;
 
+        // If a corner row doesn't contain any point inside the corner ellipse, the scanline
+        // starts or ends at the inner edge of the corner's bounding box.
         let x_start = if y < self.rounded_rectangle.straight_rows_left.start {
-            columns
-                .clone()
-                .find(|x| self.rounded_rectangle.top_left.contains(Point::new(*x, y)))
+            Some(&self.rounded_rectangle.top_left)
         } else if y >= self.rounded_rectangle.straight_rows_left.end {
-            columns.clone().find(|x| {
-                self.rounded_rectangle
-                    .bottom_left
-                    .contains(Point::new(*x, y))
-            })
+            Some(&self.rounded_rectangle.bottom_left)
         } else {
             None
         }
+        .map(|corner| {
+            let corner_columns = corner.bounding_box().columns();
+
+            corner_columns
+                .clone()
+                .find(|x| corner.contains(Point::new(*x, y)))
+                .unwrap_or(corner_columns.end)
+        })
         .unwrap_or(columns.start);
 
         let x_end = if y < self.rounded_rectangle.straight_rows_right.start {
-            columns
-                .clone()
-                .rfind(|x| self.rounded_rectangle.top_right.contains(Point::new(*x, y)))
+            Some(&self.rounded_rectangle.top_right)
         } else if y >= self.rounded_rectangle.straight_rows_right.end {
-            columns.clone().rfind(|x| {
-                self.rounded_rectangle
-                    .bottom_right
-                    .contains(Point::new(*x, y))
-            })
+            Some(&self.rounded_rectangle.bottom_right)
         } else {
             None
         }
-        .map(|x| x + 1)
+        .map(|corner| {
+            let corner_columns = corner.bounding_box().columns();
+
+            corner_columns
+                .clone()
+                .rfind(|x| corner.contains(Point::new(*x, y)))
+                .map(|x| x + 1)
+                .unwrap_or(corner_columns.start)
+        })
         .unwrap_or(columns.end);
 
         Some(Scanline::new(y, x_start..x_end))
